@@ -673,8 +673,11 @@ fn expect_at(rk: &RefKeys, comp: Comp, req: ReqSpec, j: DiversifierIndex) -> Res
     let t = if rp != Rq::Omit && comp.t && t_ok { Some(TransparentAddress::PublicKeyHash(rk.t_addr(0, jv as u32)?)) } else { None };
     if o.is_none() && s.is_none() {
         errs.insert(ErrClass::NoShielded);
-        // a later index can only help through a Sapling receiver that is merely invalid here
-        if !sapling_invalid {
+        // a later index can only help through a Sapling receiver that is merely invalid here; naming
+        // that index as the cause (InvalidSaplingDiversifierIndex) is then equally accurate
+        if sapling_invalid {
+            errs.insert(ErrClass::SaplingInvalid);
+        } else {
             persistent = true;
         }
     }
@@ -816,7 +819,7 @@ fn check_find_result(
         (Err(e), Some((jx, _))) => {
             // A Sapling receiver that is only *allowed* and not derivable at j0 makes address()
             // report "no shielded receiver"; find_address gives up instead of searching.
-            let sig = if rf.first.len() == 1 && rf.first.contains(&ErrClass::NoShielded) && matches!(e, AGE::ShieldedReceiverRequired) {
+            let sig = if rf.first.contains(&ErrClass::NoShielded) && rf.first.iter().all(|c| matches!(c, ErrClass::NoShielded | ErrClass::SaplingInvalid)) && matches!(e, AGE::ShieldedReceiverRequired) {
                 "find-address-gives-up-when-allowed-sapling-index-invalid"
             } else {
                 "find-address-error-but-valid-index-exists"
@@ -2003,6 +2006,7 @@ fn fixed_comm_cases() -> Vec<CommCase> {
         JSpec::Below31(0),
         JSpec::From31(0),
         JSpec::U32Max,
+        JSpec::U32MaxPlus1,
         JSpec::Max88Minus(0),
         JSpec::Max88Minus(1),
     ];
